@@ -433,8 +433,7 @@ theorem rt_atomic (flags : Nat) (b : Bytes) (hwf : WF ⟨6, flags, .bin b⟩)
   subst hf
   simp [WF, wfClause, classOf, binClause] at hwf
   obtain ⟨_, _, hlen⟩ := hwf
-  have : b = [] := List.eq_nil_of_length_eq_zero hlen
-  subst this
+  subst hlen
   exact ⟨.atomicAggregate, by simp [toApi], by simp [fromApi, newWithBin, canonicalFlags]⟩
 
 theorem rt_aggregator (flags : Nat) (b : Bytes) (hwf : WF ⟨7, flags, .bin b⟩)
@@ -517,5 +516,79 @@ theorem rt_extcom (flags : Nat) (b : Bytes) (hwf : WF ⟨16, flags, .bin b⟩)
   have hfl := chunksN_flatten 8 (b.length / 8) b
   rw [h8, List.take_length] at hfl
   simp [fromApi, hm, hfl, newWithBin, canonicalFlags]
+
+/-- codes that reach the last (`Unknown`) arm of `attr_to_api` and are stored by the decoder -/
+def rawCode (code : Nat) : Prop :=
+  code ≠ 1 ∧ code ≠ 2 ∧ code ≠ 3 ∧ code ≠ 4 ∧ code ≠ 5 ∧ code ≠ 6 ∧ code ≠ 7 ∧ code ≠ 8 ∧ code ≠ 9 ∧
+  code ≠ 10 ∧ code ≠ 16 ∧ code ≠ 32 ∧ code ≠ 17 ∧ code ≠ 18 ∧ code ≠ 23 ∧ code ≠ 29 ∧ code ≠ 40
+
+theorem rt_known_raw (code flags : Nat) (d : Data) (hcode : code = 14 ∨ code = 15 ∨ code = 26)
+    (hwf : WF ⟨code, flags, d⟩) (hc : flagsCanon ⟨code, flags, d⟩) : RT current ⟨code, flags, d⟩ := by
+  rcases hcode with rfl | rfl | rfl <;>
+  · have hf : flags = 0x80 := hc 0x80 (by simp [canonicalFlags])
+    subst hf
+    cases d with
+    | val v => simp [WF, wfClause, classOf, valClause] at hwf
+    | raw b => simp [WF, wfClause, classOf] at hwf
+    | bin b =>
+        exact ⟨.unknown 0x80 _ b, by simp [toApi, Attribute.binary],
+          by simp [fromApi, current, canonicalFlags, typedCode]⟩
+
+theorem rt_unknown (code flags : Nat) (d : Data) (hr : rawCode code) (h14 : code ≠ 14) (h15 : code ≠ 15)
+    (h26 : code ≠ 26) (hwf : WF ⟨code, flags, d⟩) : RT current ⟨code, flags, d⟩ := by
+  obtain ⟨n1, n2, n3, n4, n5, n6, n7, n8, n9, n10, n16, n32, n17, n18, n23, n29, n40⟩ := hr
+  have hcf : canonicalFlags code = none := by simp [canonicalFlags, *]
+  have hcl : classOf code = none := by simp [classOf, *]
+  simp only [WF, wfClause, hcl, need_eq_none, Bool.and_eq_true, decide_eq_true_eq] at hwf
+  obtain ⟨⟨hcode, hflags⟩, hd⟩ := hwf
+  cases d with
+  | val v => simp at hd
+  | bin b => simp at hd
+  | raw b =>
+      simp only [need_eq_none, Bool.and_eq_true, beq_iff_eq, and_true] at hd
+      obtain ⟨⟨ho, ht⟩, _⟩ := hd
+      refine ⟨.unknown flags code b, by simp [toApi, Attribute.binary, *], ?_⟩
+      have hmod : code % 256 = code := Nat.mod_eq_of_lt hcode
+      have hnot : ¬ (code > 255 ∨ flags > 255) := by omega
+      simp [fromApi, current, hmod, hnot, hcf, ho, ht]
+
+/-- what the decoder stores: never NEXT_HOP / MP_* (consumed by the UPDATE parser) nor AS4_* (discarded
+    on a four-octet-AS session) -/
+def storable (code : Nat) : Prop := code ≠ 3 ∧ code ≠ 14 ∧ code ≠ 15 ∧ code ≠ 17 ∧ code ≠ 18
+
+/-- **round trip**: every well-formed stored attribute of a modelled code whose flags byte is the
+    canonical one is converted to its API form without panic and converted back to itself. -/
+theorem roundtrip_attr (a : Attribute) (hwf : WF a) (hm : modelledCode a.code = true)
+    (hs : a.code ≠ 3 ∧ a.code ≠ 17 ∧ a.code ≠ 18) (hc : flagsCanon a) : RT current a := by
+  obtain ⟨code, flags, d⟩ := a
+  simp only [modelledCode, decide_eq_true_eq] at hm
+  obtain ⟨m23, m29, m40⟩ := hm
+  obtain ⟨s3, s17, s18⟩ := hs
+  simp only at s3 s17 s18 m23 m29 m40
+  by_cases h1 : code = 1 ∨ code = 4 ∨ code = 5 ∨ code = 9
+  · cases d with
+    | val v => exact rt_val code flags v h1 hwf hc
+    | bin b => rcases h1 with rfl | rfl | rfl | rfl <;> simp [WF, wfClause, classOf, binClause] at hwf
+    | raw b => rcases h1 with rfl | rfl | rfl | rfl <;> simp [WF, wfClause, classOf] at hwf
+  by_cases h2 : code = 2 ∨ code = 6 ∨ code = 7 ∨ code = 8 ∨ code = 10 ∨ code = 16 ∨ code = 32
+  · cases d with
+    | val v =>
+        rcases h2 with rfl | rfl | rfl | rfl | rfl | rfl | rfl <;>
+          simp [WF, wfClause, classOf, valClause] at hwf
+    | raw b =>
+        rcases h2 with rfl | rfl | rfl | rfl | rfl | rfl | rfl <;> simp [WF, wfClause, classOf] at hwf
+    | bin b =>
+        rcases h2 with rfl | rfl | rfl | rfl | rfl | rfl | rfl
+        · exact rt_aspath flags b hwf hc
+        · exact rt_atomic flags b hwf hc
+        · exact rt_aggregator flags b hwf hc
+        · exact rt_u32list 8 flags b (Or.inl rfl) hwf hc
+        · exact rt_u32list 10 flags b (Or.inr rfl) hwf hc
+        · exact rt_extcom flags b hwf hc
+        · exact rt_large flags b hwf hc
+  by_cases h3 : code = 14 ∨ code = 15 ∨ code = 26
+  · exact rt_known_raw code flags d h3 hwf hc
+  · have hr : rawCode code := by unfold rawCode; omega
+    exact rt_unknown code flags d hr (by omega) (by omega) (by omega) hwf
 
 end Rbgp.Api
